@@ -1174,58 +1174,68 @@ func ruleV1b(c *Ctx) *RuleResult {
 		r.undecided("MultivariantRendition.unmarshal / URI / Type not found")
 		return r
 	}
-	typeIs := func(name string) []condIf {
-		return ifsOn(fn, func(v ssa.Value) bool {
-			bo, ok := v.(*ssa.BinOp)
-			if !ok || bo.Op != token.EQL {
-				return false
-			}
-			f, _ := loadedField(bo.X)
-			s, isS := constString(bo.Y)
-			return f == typF && isS && s == name
-		})
+	// the constraints may sit in unmarshal itself or in a validator method of the same type that it calls
+	rn := namedOf(fn.Signature.Recv().Type())
+	var hosts []*ssa.Function
+	for _, g := range c.Funcs {
+		if g.Signature.Recv() != nil && namedOf(g.Signature.Recv().Type()) == rn && rn != nil {
+			hosts = append(hosts, g)
+		}
 	}
 	n := 0
-	for _, b := range fn.Blocks {
-		if len(b.Instrs) == 0 {
-			continue
+	for _, fn := range hosts {
+		typeIs := func(name string) []condIf {
+			return ifsOn(fn, func(v ssa.Value) bool {
+				bo, ok := v.(*ssa.BinOp)
+				if !ok || bo.Op != token.EQL {
+					return false
+				}
+				f, _ := loadedField(bo.X)
+				s, isS := constString(bo.Y)
+				return f == typF && isS && s == name
+			})
 		}
-		iff, ok := b.Instrs[len(b.Instrs)-1].(*ssa.If)
-		if !ok {
-			continue
-		}
-		bo, ok := iff.Cond.(*ssa.BinOp)
-		if !ok || (bo.Op != token.EQL && bo.Op != token.NEQ) {
-			continue
-		}
-		k, isNil := bo.Y.(*ssa.Const)
-		f, _ := loadedField(bo.X)
-		if !isNil || !k.IsNil() || f != uriF {
-			continue
-		}
-		// which branch returns an error?
-		for idx, succ := range b.Succs {
-			if len(succ.Instrs) == 0 {
+		for _, b := range fn.Blocks {
+			if len(b.Instrs) == 0 {
 				continue
 			}
-			ret, isRet := succ.Instrs[len(succ.Instrs)-1].(*ssa.Return)
-			if !isRet || isSuccessReturn(ret) {
+			iff, ok := b.Instrs[len(b.Instrs)-1].(*ssa.If)
+			if !ok {
 				continue
 			}
-			uriNil := (bo.Op == token.EQL) == (idx == 0)
-			n++
-			want := "CLOSED-CAPTIONS"
-			desc := "a present URI is rejected only for TYPE=CLOSED-CAPTIONS"
-			if uriNil {
-				want = "SUBTITLES"
-				desc = "a missing URI is rejected only for TYPE=SUBTITLES"
+			bo, ok := iff.Cond.(*ssa.BinOp)
+			if !ok || (bo.Op != token.EQL && bo.Op != token.NEQ) {
+				continue
 			}
-			key := fmt.Sprintf("MultivariantRendition.unmarshal|uri-%v", map[bool]string{true: "missing", false: "present"}[uriNil])
-			conds := typeIs(want)
-			if len(conds) > 0 && onlyIf(fn, ret, conds, true) {
-				r.ok(key, c.Pos(posOf(ret)), FuncName(fn), desc, "control dependent on Type == "+want)
-			} else {
-				r.fail(key, c.Pos(posOf(ret)), FuncName(fn), desc, "the rejection is reachable for other rendition types: a rendition that RFC 8216 4.3.4.1 allows (and that Marshal prints) no longer decodes")
+			k, isNil := bo.Y.(*ssa.Const)
+			f, _ := loadedField(bo.X)
+			if !isNil || !k.IsNil() || f != uriF {
+				continue
+			}
+			// which branch returns an error?
+			for idx, succ := range b.Succs {
+				if len(succ.Instrs) == 0 {
+					continue
+				}
+				ret, isRet := succ.Instrs[len(succ.Instrs)-1].(*ssa.Return)
+				if !isRet || isSuccessReturn(ret) {
+					continue
+				}
+				uriNil := (bo.Op == token.EQL) == (idx == 0)
+				n++
+				want := "CLOSED-CAPTIONS"
+				desc := "a present URI is rejected only for TYPE=CLOSED-CAPTIONS"
+				if uriNil {
+					want = "SUBTITLES"
+					desc = "a missing URI is rejected only for TYPE=SUBTITLES"
+				}
+				key := fmt.Sprintf("MultivariantRendition.unmarshal|uri-%v", map[bool]string{true: "missing", false: "present"}[uriNil])
+				conds := typeIs(want)
+				if len(conds) > 0 && onlyIf(fn, ret, conds, true) {
+					r.ok(key, c.Pos(posOf(ret)), FuncName(fn), desc, "control dependent on Type == "+want)
+				} else {
+					r.fail(key, c.Pos(posOf(ret)), FuncName(fn), desc, "the rejection is reachable for other rendition types: a rendition that RFC 8216 4.3.4.1 allows (and that Marshal prints) no longer decodes")
+				}
 			}
 		}
 	}
